@@ -794,8 +794,12 @@ Qed.
 
 Lemma compile_sync_no_ack : forall w, forallb not_plain_ack (compile true w) = true.
 Proof.
-  intro w. unfold compile. apply forallb_flat_map. intros [es border hord| | |fids lvl|b f es border hord]; cbn [compile_step]; try reflexivity.
+  intro w. unfold compile. apply forallb_flat_map. intros [es border hord|rs| | |fids lvl|b f es border hord]; cbn [compile_step]; try reflexivity.
   - unfold client_request_mops. rewrite !forallb_app, vlog_phase_no_ack, heads_no_ack, apply_phase_no_ack. reflexivity.
+  - rewrite !forallb_app. apply andb_true_iff; split; [|apply andb_true_iff; split].
+    + apply forallb_flat_map; intro q; apply vlog_phase_no_ack.
+    + apply forallb_flat_map; intro q. rewrite forallb_app, heads_no_ack, apply_phase_no_ack. reflexivity.
+    + induction rs as [|q rs IH]; [reflexivity|exact IH].
   - rewrite forallb_app, request_no_ack. destruct es; reflexivity.
 Qed.
 
